@@ -21,7 +21,8 @@ def sh(cmd, cwd=None, timeout=600):
 def demo_cmd():
     if os.path.exists(os.path.join(out, "demo_test.go")):
         shutil.copy(os.path.join(out, "demo_test.go"), os.path.join(wt, "zz_seeded_demo_test.go"))
-        return "go test -count=1 -run 'TestSeeded' . 2>&1 | tail -15"
+        tags = "-tags verif " if "go:build verif" in open(os.path.join(out, "demo_test.go")).read() else ""
+        return "go test " + tags + "-count=1 -run 'TestSeeded' . 2>&1 | tail -15"
     return None
 
 report = {"name": name, "properties": props}
@@ -69,7 +70,7 @@ try:
         lines = [l for l in o.splitlines() if l.startswith("VIOLATION") or l.startswith("KNOWN") or " quick:" in l or l.startswith("  broken") or l.startswith("  finding")]
         results[p] = {"exit": rc, "wall_s": round(time.time() - t0, 1), "lines": [l[:300] for l in lines[:8]]}
 finally:
-    sh("git -C /repo checkout -- .")
+    sh("git -C /repo checkout -- . && git -C /repo clean -fdq")
     for p, t in EVBAK.items():  # evidence must describe the unchanged tree, not the seeded change
         open('/verif/evidence/%s.json' % p, 'w').write(t)
 meta["checks_run"] = results
